@@ -159,68 +159,27 @@ func runC14(c *Ctx) {
 	c.checkBodyCap(reached)
 
 	// ---- O-3 error mapping after each IPC call ----
-	ipcMethods := map[string]bool{"ProxyPolls": true, "ClientOffers": true, "ProxyAnswers": true, "Debug": true}
-	nIPC := 0
-	for _, fn := range reached {
-		if p.Rel(fn) != "broker" {
-			continue
-		}
-		for _, ci := range callsIn(fn) {
-			call, ok := ci.(*ssa.Call)
-			if !ok {
-				continue
-			}
-			callee := staticCallee(call)
-			if callee == nil || callee.Signature.Recv() == nil || !ipcMethods[callee.Name()] {
-				continue
-			}
-			if n := namedOf(callee.Signature.Recv().Type()); n == nil || n.Obj().Name() != "IPC" {
-				continue
-			}
-			if fn.Signature.Recv() != nil {
-				if n := namedOf(fn.Signature.Recv().Type()); n != nil && n.Obj().Name() == "IPC" {
-					continue // IPC-internal call
-				}
-			}
-			nIPC++
-			key := p.FnName(fn) + " after " + p.FnName(callee)
-			nilE := errEdges(fn, call, 0, true)
-			nonNilE := errEdges(fn, call, 0, false)
-			if len(nilE) == 0 {
-				c.viol("O-3 every IPC error is mapped to a status", key, p.instrPos(call), "the error of the IPC call is never tested")
-				continue
-			}
-			bad := false
-			// success output only behind err == nil
-			allInstrs(fn, func(in ssa.Instruction) {
-				oc, ok := in.(ssa.CallInstruction)
-				if !ok {
-					return
-				}
-				isOut := isCallTo(oc, "(net/http.ResponseWriter).Write") || isWriteHeader(in, 200, 299)
-				if !isOut || !canFollow(call, in) {
-					return
-				}
-				if path := reachAfter(call, in, nilE); path != nil {
-					bad = true
-					c.viol("O-3 every IPC error is mapped to a status", key, p.instrPos(in), "success output reachable without passing the err == nil edge of the IPC call", p.pathString(path)...)
-				}
-			})
-			for _, e := range nonNilE {
-				if path := escapesWithout(e.To(), func(in ssa.Instruction) bool { return isWriteHeader(in, 400, 599) }); path != nil {
-					bad = true
-					c.viol("O-3 every IPC error is mapped to a status", key, p.instrPos(call), "an IPC error can return without writing a 4xx/5xx status", p.pathString(path)...)
-				}
-			}
-			if !bad {
-				c.ok("O-3 every IPC error is mapped to a status", key, p.instrPos(call), fmt.Sprintf("success output behind err == nil; %d error edge(s) all write a 4xx/5xx status before returning", len(nonNilE)))
-			}
-		}
-	}
-	c.count("IPC call sites in handlers", nIPC)
+	c.checkIPCErrorMapping(reached)
 
 	// ---- O-4 legacy shim shares the ClientOffers call ----
 	c.checkLegacyShim("O-4 legacy shim is a wrapper around the same handler")
+
+	// ---- O-6 every poll goroutine answers its own poller; the proxy table is read under its lock ----
+	// (C02's provenance obligation: a goroutine that captured the loop variable answers the wrong
+	// poll and leaves its own without a response; C20's rows for the matching state: an unlocked
+	// iteration of the id map is a fatal "concurrent map iteration and map write" for the process)
+	c.prefix = "O-6/C02:"
+	c.checkBrokerLoopProvenance()
+	{
+		var rows []guardRow
+		for _, r := range guardTable {
+			if r.Rel == "broker" && (r.Type == "BrokerContext" || r.Type == "Snowflake") {
+				rows = append(rows, r)
+			}
+		}
+		c.checkGuardRows("O-2 unique holder", rows, p.FnsIn("broker"))
+	}
+	c.prefix = ""
 
 	// ---- O-5 no unbounded wait: the rendezvous-channel obligations of C04 ----
 	c.prefix = "O-5/C04:"
@@ -455,5 +414,71 @@ func (c *Ctx) checkBodyCap(reached []*ssa.Function) {
 			}
 		})
 	}
+
+}
+
+// checkIPCErrorMapping: after each IPC call of a handler the success output is
+// behind err == nil and every error path writes a 4xx/5xx status.
+func (c *Ctx) checkIPCErrorMapping(reached []*ssa.Function) {
+	p := c.P
+	ipcMethods := map[string]bool{"ProxyPolls": true, "ClientOffers": true, "ProxyAnswers": true, "Debug": true}
+	nIPC := 0
+	for _, fn := range reached {
+		if p.Rel(fn) != "broker" {
+			continue
+		}
+		for _, ci := range callsIn(fn) {
+			call, ok := ci.(*ssa.Call)
+			if !ok {
+				continue
+			}
+			callee := staticCallee(call)
+			if callee == nil || callee.Signature.Recv() == nil || !ipcMethods[callee.Name()] {
+				continue
+			}
+			if n := namedOf(callee.Signature.Recv().Type()); n == nil || n.Obj().Name() != "IPC" {
+				continue
+			}
+			if fn.Signature.Recv() != nil {
+				if n := namedOf(fn.Signature.Recv().Type()); n != nil && n.Obj().Name() == "IPC" {
+					continue // IPC-internal call
+				}
+			}
+			nIPC++
+			key := p.FnName(fn) + " after " + p.FnName(callee)
+			nilE := errEdges(fn, call, 0, true)
+			nonNilE := errEdges(fn, call, 0, false)
+			if len(nilE) == 0 {
+				c.viol("O-3 every IPC error is mapped to a status", key, p.instrPos(call), "the error of the IPC call is never tested")
+				continue
+			}
+			bad := false
+			// success output only behind err == nil
+			allInstrs(fn, func(in ssa.Instruction) {
+				oc, ok := in.(ssa.CallInstruction)
+				if !ok {
+					return
+				}
+				isOut := isCallTo(oc, "(net/http.ResponseWriter).Write") || isWriteHeader(in, 200, 299)
+				if !isOut || !canFollow(call, in) {
+					return
+				}
+				if path := reachAfter(call, in, nilE); path != nil {
+					bad = true
+					c.viol("O-3 every IPC error is mapped to a status", key, p.instrPos(in), "success output reachable without passing the err == nil edge of the IPC call", p.pathString(path)...)
+				}
+			})
+			for _, e := range nonNilE {
+				if path := escapesWithout(e.To(), func(in ssa.Instruction) bool { return isWriteHeader(in, 400, 599) }); path != nil {
+					bad = true
+					c.viol("O-3 every IPC error is mapped to a status", key, p.instrPos(call), "an IPC error can return without writing a 4xx/5xx status", p.pathString(path)...)
+				}
+			}
+			if !bad {
+				c.ok("O-3 every IPC error is mapped to a status", key, p.instrPos(call), fmt.Sprintf("success output behind err == nil; %d error edge(s) all write a 4xx/5xx status before returning", len(nonNilE)))
+			}
+		}
+	}
+	c.count("IPC call sites in handlers", nIPC)
 
 }
